@@ -379,7 +379,8 @@ def run(repo: Repo, rep: Report, tier: str) -> None:
         rep.ok("R17.3", "get_type_name_identifier sanitises and registers local type names", {"body": gtxt[:160]})
     else:
         rep.undecide("R17.3", "get_type_name_identifier has a shape the rule does not know")
-
+    from ..core import regget
+    regget.report(repo, rep, "R17.6", {"modules-final-type"})
 
 def _skel(it) -> str:
     return " | ".join(l.tmpl.skeleton() for l in it.lines)
